@@ -64,6 +64,17 @@ Proof.
 Qed.
 
 Print Assumptions C05_equal_context.
+(** ... and with every result kept alive (as concurrent holders of results do): read at the very
+    end, each result is still what its program yields alone, and no buffer that existed at the
+    start has changed - a value once obtained is never changed by a later execution. *)
+Theorem C05_heap_results_kept : forall es ρ σ σ' rs, wf σ ρ -> run_keep ρ σ es = (σ', rs) ->
+  map (read σ') rs = map (peval (map (denote σ) ρ)) es /\ length σ <= length σ' /\
+  (forall l, l < length σ -> pl_of σ' l = pl_of σ l) /\
+  (forall l, l < length σ -> rc_of σ l <= rc_of σ' l) /\
+  Forall (fun r => forall k, r = Ok (HRef k) -> k < length σ') rs.
+Proof. exact keep_spec. Qed.
+
+Print Assumptions C05_heap_results_kept.
 Print Assumptions C05_heap_execution.
 Print Assumptions C05_heap_history.
 Print Assumptions C05_frame.
